@@ -1,10 +1,109 @@
 import CueVerif.Driver.Proto
+import CueVerif.Model.Sanitize
+import CueVerif.Model.Toposort
 namespace CueVerif.Driver.C02
 open CueVerif CueVerif.Driver
 
-/-- protocol handler for C02: words of one op line (after the property id) → answer -/
+/-! protocol handler for C02
+
+  san  <errs>                    errs = "-" | e;e;…   e = fid.nameHex.off.bits/paths/msgHex/aux
+                                 paths = "~" (no path) | hex,hex,…   → the surviving errors, same syntax
+  topo <fixed> <labels> <edges>  labels = "-" | l,l,…  l = i<idx> | n<typ>.<hex>; edges = "-" | a>b,…
+                                 (indices into labels) → "ok l,l,…" | "panic" | "fuel"
+  scc  <labels> <edges>          → "ok c;c;…" every component's labels sorted, components sorted
+-/
+
+def parsePos (s : String) : Option Sanitize.Pos :=
+  match s.splitOn "." with
+  | [a, b, c, d] => do
+    let fid ← a.toNat?
+    let name ← unhex b
+    let off ← c.toNat?
+    let bits ← d.toNat?
+    pure ⟨fid, name, off, bits⟩
+  | _ => none
+
+def parsePath (s : String) : Option (List (List Nat)) :=
+  if s == "~" then some [] else (s.splitOn ",").mapM unhex
+
+def parseErr (s : String) : Option Sanitize.Err :=
+  match s.splitOn "/" with
+  | [p, pa, m, a] => do
+    let pos ← parsePos p
+    let path ← parsePath pa
+    let msg ← unhex m
+    let aux ← a.toNat?
+    pure ⟨pos, path, msg, aux⟩
+  | _ => none
+
+def showErr (e : Sanitize.Err) : String :=
+  let p := e.pos
+  let path := if e.path.isEmpty then "~" else ",".intercalate (e.path.map hex)
+  s!"{p.fid}.{hex p.name}.{p.off}.{p.bits}/{path}/{hex e.msg}/{e.aux}"
+
+def parseLabel (s : String) : Option Toposort.Label :=
+  if s.startsWith "i" then (s.drop 1).toNat?.map Toposort.Label.int
+  else if s.startsWith "n" then
+    match (s.drop 1).toString.splitOn "." with
+    | [t, h] => do
+      let typ ← t.toNat?
+      let str ← unhex h
+      pure (Toposort.Label.named typ str)
+    | _ => none
+  else none
+
+def showLabel : Toposort.Label → String
+  | .int i => s!"i{i}"
+  | .named t s => s!"n{t}.{hex s}"
+
+def parseEdge (s : String) : Option (Nat × Nat) :=
+  match s.splitOn ">" with
+  | [a, b] => do pure (← a.toNat?, ← b.toNat?)
+  | _ => none
+
+/-- the presentation the harness built: nodes in the given order, successors in AddEdge
+order, repeated edges ignored (GraphBuilder.edgesSet) -/
+def mkGraph (labels : List Toposort.Label) (edges : List (Nat × Nat)) : Option Toposort.Graph := do
+  let es ← edges.mapM fun (a, b) => do
+    let u ← labels[a]?
+    let v ← labels[b]?
+    pure (u, v)
+  let es := es.eraseDups
+  pure ⟨labels, fun u => (es.filter (fun e => e.1 == u)).map (·.2)⟩
+
+def parseGraph (ls es : String) : Option Toposort.Graph := do
+  let labels ← if ls == "-" then some [] else (ls.splitOn ",").mapM parseLabel
+  let edges ← if es == "-" then some [] else (es.splitOn ",").mapM parseEdge
+  mkGraph labels edges
+
+def insStr (x : String) : List String → List String
+  | [] => [x]
+  | y :: ys => if x ≤ y then x :: y :: ys else y :: insStr x ys
+
+def sortStr (l : List String) : List String := l.foldr insStr []
+
+def dash (s : String) : String := if s.isEmpty then "-" else s
+
 def handle (ws : List String) : String :=
   match ws with
+  | ["san", l] =>
+    match (if l == "-" then some [] else (l.splitOn ";").mapM parseErr) with
+    | some es => dash (";".intercalate ((Sanitize.sanitizeTop es).map showErr))
+    | none => "bad-op"
+  | ["topo", f, ls, es] =>
+    match parseGraph ls es with
+    | some g =>
+      match Toposort.sortG (f == "1") Toposort.stableSort g with
+      | .ok l => "ok " ++ dash (",".intercalate (l.map showLabel))
+      | .panic => "panic"
+      | .fuel => "fuel"
+    | none => "bad-op"
+  | ["scc", ls, es] =>
+    match parseGraph ls es with
+    | some g =>
+      let cs := (Toposort.tarjan g).map fun c => ",".intercalate (sortStr (c.map showLabel))
+      "ok " ++ dash (";".intercalate (sortStr cs))
+    | none => "bad-op"
   | _ => "bad-op"
 
 end CueVerif.Driver.C02
